@@ -679,6 +679,23 @@ def obs_exhaustive(maxlen, heads=("unique", "shared", "guard"), prefixes=("", "s
     return cases
 
 
+def obs_after_last_owner(maxlen, heads=("shared", "guard")):
+    """handle life cycles around the death of the last owner: a subscriber and a weak reference outlive
+    (or not) every handle; then every sequence of upgrades, clones, drops and counts"""
+    alpha = ("upgrade", "counts", "clone", "drop_owner", "poll(0)", "clone_weak", "drop_weak", "sdrop(0)", "set(11)")
+    prefixes = ("subscribe ; downgrade ; drop_owner ; ",
+                "subscribe ; downgrade ; clone ; drop_owner ; drop_owner ; ",
+                "downgrade ; subscribe ; poll(0) ; drop_owner ; poll(0) ; ",
+                "subscribe ; downgrade ; upgrade ; drop_owner ; ")
+    cases = []
+    for head in heads:
+        for pre in prefixes:
+            for n in range(1, maxlen + 1):
+                for seq in itertools.product(alpha, repeat=n):
+                    cases.append("%s :: %s%s ; counts ; poll(0)" % (head, pre, " ; ".join(seq)))
+    return cases
+
+
 def obs_random(rng, n, heads=("unique", "shared", "guard"), minlen=10, maxlen=40, counts=True):
     cases = []
     vals = (0, 1, 10, 11, 12, 21, 22, 35)
@@ -1394,5 +1411,53 @@ def drain_random(rng, n, maxops=30):
                 pend[k] = 0
         for k in live:
             ops += ["poll(%d)" % k] * 3
+        cases.append("cap=%d :: %s" % (cap, " ; ".join(ops)))
+    return cases
+
+
+# ---------------------------------------------------------------- bcast (the channel model against tokio itself)
+def bcast_exhaustive(maxlen, caps=(1, 2, 3, 4, 5)):
+    alpha = ("send", "sub", "recv(0)", "recv(1)", "droprx(0)", "droptx", "resub(0)")
+    cases = []
+    for cap in caps:
+        for n in range(1, maxlen + 1):
+            for seq in itertools.product(alpha, repeat=n):
+                i = 0
+                ops = ["sub"]
+                for o in seq:
+                    if o == "send":
+                        i += 1
+                        ops.append("send(%d)" % i)
+                    else:
+                        ops.append(o)
+                cases.append("cap=%d :: %s ; recv(0) ; recv(0) ; recv(1)" % (cap, " ; ".join(ops)))
+    return cases
+
+
+def bcast_random(rng, n):
+    cases = []
+    for _ in range(n):
+        cap = rng.choice((1, 2, 3, 4, 5, 7, 8, 9, 16, 17))
+        ops = ["sub"]
+        nrx = 1
+        v = 0
+        for _ in range(rng.randrange(5, 80)):
+            r = rng.random()
+            if r < 0.5:
+                v += 1
+                ops.append("send(%d)" % v)
+            elif r < 0.8:
+                ops.append("recv(%d)" % rng.randrange(nrx))
+            elif r < 0.86 and nrx < 5:
+                ops.append(rng.choice(("sub", "resub(%d)" % rng.randrange(nrx))))
+                nrx += 1
+            elif r < 0.9:
+                ops.append("droprx(%d)" % rng.randrange(nrx))
+            elif r < 0.92:
+                ops.append("droptx")
+            else:
+                ops.append("count")
+        for k in range(nrx):
+            ops += ["recv(%d)" % k] * 3
         cases.append("cap=%d :: %s" % (cap, " ; ".join(ops)))
     return cases
